@@ -38,15 +38,15 @@ type sTxn struct {
 }
 
 type scripted struct {
-	c     core.Case
-	r     *rand.Rand
-	res   *core.Result
-	db    *originium.DB
-	dir   string
-	cfg   originium.Config
-	keys  []string
-	hist  [][]sVer // per key
-	cws   []struct {
+	c    core.Case
+	r    *rand.Rand
+	res  *core.Result
+	db   *originium.DB
+	dir  string
+	cfg  originium.Config
+	keys []string
+	hist [][]sVer // per key
+	cws  []struct {
 		seq  int
 		keys map[int]bool
 	}
